@@ -289,6 +289,13 @@ func eventsReplay(args []string) {
 			}
 			must(enc.Encode(line))
 			ns++
+			if line.Blocked {
+				// an operation on the bus did not return or its handlers never finished: the bus is process-global, nothing
+				// after this in this process can be trusted (and every further operation would run into its watchdog)
+				w.Flush()
+				fmt.Printf("{\"behaviours\": %d, \"steps\": %d, \"hung\": true}\n", nb+1, ns)
+				os.Exit(0)
+			}
 		}
 		for h := range bus.handlers {
 			bus.unsub(h)
